@@ -42,6 +42,20 @@ func init() {
 		fields = append(fields, hx(first), hx(second), kept)
 		c.Case("html_concat", fields...)
 	})
+	// html_concat_raw: the pieces are HTML values made by an unchecked conversion (any bytes): HTMLConcat is
+	// the plain concatenation of its arguments, whatever they contain
+	reg("html_concat_raw", 3, func(c *caseWriter, in []string) {
+		var hs []safehtml.HTML
+		fields := []string{"3"}
+		for _, s := range in {
+			hs = append(hs, safehtml.VerifRawHTML(s))
+			fields = append(fields, hx(s))
+		}
+		first := safehtml.HTMLConcat(hs...).String()
+		second := safehtml.HTMLConcat(hs...).String()
+		fields = append(fields, hx(first), hx(second))
+		c.Case("html_concat_raw", fields...)
+	})
 }
 
 func runC10(c *caseWriter) (string, bool, map[string]int) {
@@ -110,6 +124,14 @@ func runC10(c *caseWriter) (string, bool, map[string]int) {
 	}
 	for i := 0; i < 200; i++ {
 		emit(c, "html_concat", randFrom(alphabet, 6), randFrom(alphabet, 6), randFrom(alphabet, 6))
+	}
+	// raw pieces: a multi-byte character split over two pieces, non-characters, controls, markup
+	for _, tr := range [][3]string{{"caf\xc3", "\xa9", "!"}, {"\xf0\x9f", "\x98\x80", ""}, {"a\x00", "\ufdd0", "\U0001fffe"}, {"<b>", "x", "</b>"}, {"\xff", "", "\xfe"}, {"\xe2\x82", "\xac", "\xe2"},
+		{"&", "amp;", ""}, {"\x7f", "\u0085", "\r\n"}, {"\xed\xa0", "\x80", "z"}} {
+		emit(c, "html_concat_raw", tr[0], tr[1], tr[2])
+	}
+	for i := 0; i < 100; i++ {
+		emit(c, "html_concat_raw", randFrom(alphabet, 4), randFrom(alphabet, 4), randFrom(alphabet, 4))
 	}
 	// empty pieces at every position
 	for _, tr := range [][3]string{{"", "a", "b"}, {"a", "", "b"}, {"a", "b", ""}, {"", "", "a"}, {"", "a", ""}, {"a", "", ""}, {"", "", ""}, {"<b>", "", "x"}, {"&", "", "<"}} {
